@@ -157,6 +157,24 @@ func c10Job(raw json.RawMessage) (any, error) {
 			}); !bad {
 				routers = append(routers, rt{"structural-prefix-only", structural, false})
 			}
+			// histories in which URL building itself comes before the table changes (nothing may be remembered)
+			any := map[string]string{"x": "1", "y": "1", "z": "1", "xy": "1"}
+			urlThenRemoved := mk("")
+			urlThenRemoved.Handle(it.Pattern, hv.Route("h"), nil, "GET")
+			urlThenRemoved.URL(true, it.Pattern, any)
+			urlThenRemoved.URL(true, it.Pattern, nil)
+			urlThenRemoved.Remove(it.Pattern)
+			routers = append(routers, rt{"strict-URL-then-removed", urlThenRemoved, false})
+			urlThenCleaned := mk("")
+			urlThenCleaned.Handle(it.Pattern, hv.Route("h"), nil, "GET")
+			urlThenCleaned.URL(true, it.Pattern, any)
+			urlThenCleaned.Clean()
+			routers = append(routers, rt{"strict-URL-then-cleaned", urlThenCleaned, false})
+			urlThenAdded := mk("")
+			urlThenAdded.URL(true, it.Pattern, any)
+			urlThenAdded.URL(false, it.Pattern, any)
+			urlThenAdded.Handle(it.Pattern, hv.Route("h"), nil, "GET")
+			routers = append(routers, rt{"strict-URL-then-registered", urlThenAdded, true})
 			dom := mk("https://h/")
 			dom.Handle(it.Pattern, hv.Route("h"), nil, "GET")
 			routers = append(routers, rt{"live+domain", dom, true})
